@@ -111,8 +111,14 @@ func (c *checker) runHistory(h []int, all bool) (key string, what string, pruned
 		if iv == 0 {
 			iv = 3
 		}
-		for i := int64(0); i < 2*iv; i++ {
-			out, err := b.exec(&c.alpha[0])
+		warm, nWarm := &c.alpha[0], 2*iv
+		if c.w.opts.VRF {
+			// VRF beacon: the first committee is elected at the start of epoch 3, from the proofs that the
+			// nodes submitted in epoch 2 over a high-quality alpha (which needs the proofs of epoch 1)
+			warm, nWarm = &letter{Name: "vrf-auto", VRF: &vrfSpec{Kind: "auto"}}, 2*iv+1
+		}
+		for i := int64(0); i < nWarm; i++ {
+			out, err := b.exec(warm)
 			if err != nil {
 				return "", "harness: " + err.Error(), false
 			}
@@ -203,7 +209,7 @@ func (c *checker) runHistory(h []int, all bool) (key string, what string, pruned
 				if w != "" {
 					return "", "harness: " + w, false
 				}
-				if prevView != nil && len(l.Txs) == 0 && l.Round == nil && l.Evidence == "" {
+				if prevView != nil && len(l.Txs) == 0 && l.Round == nil && l.VRF == nil && l.Evidence == "" {
 					if w := debondOracle(prevView, v, ref); w != "" {
 						return "", fmt.Sprintf("block %d (%s, epoch %d -> %d): %s", i+1, l.Name, prevView.Epoch, v.Epoch, w), false
 					}
@@ -306,7 +312,15 @@ func timelinePhase(r *ev.Run, c *checker, vi int, profile string, opts chain.Gen
 	type job struct{ pos, li, filler int }
 	var jobs []job
 	fillers := []int{0}
-	if opts.Runtime {
+	if opts.VRF {
+		// well-behaved nodes: proofs as soon as they are accepted (and, with a runtime, rounds otherwise)
+		for i, l := range c.alpha {
+			if l.VRF != nil && l.VRF.Kind == "auto" {
+				fillers = append(fillers, i)
+			}
+		}
+	}
+	if opts.Runtime && !opts.VRF {
 		// a live runtime: every other block finalizes a runtime round
 		for i, l := range c.alpha {
 			if l.Round != nil && l.Round.Who == "all" && l.Round.Msgs == "" && l.Round.InMsgs == "" {
